@@ -195,6 +195,7 @@ class FactorHooks:
         eng.oblige(s2, '%s/axes-distinct@L%d' % (what, node.lineno), w == j0, kind='numpy-precondition')
         keep = lambda e, s, i: z3.Not(e.membership(s, axes, E.Num(i)))
         labels = eng.make_filter(st, v.labels, keep, name='labels-kept')
+        labels.axes, labels.keep_idx, labels.of = axes, keep, v      # for the positions-of-attributes lemma (pv/contracts/factor.py)
         pos = labels.pos
         dims = Arr(labels.n, lambda e, s, j: v.dims.at(e, s, pos(j)), name='dims-kept')
         return NDV(labels, dims, eng.fresh(what, V))
